@@ -692,7 +692,7 @@ def gen_spiral_case(rng: random.Random, lo: int, hi: int) -> Case:
 
 
 def generate(rng: random.Random, tier: str):
-    n_mem, n_disk, n_spiral, lo, hi = (1700, 550, 350, 5, 12) if tier == "quick" else (24000, 8000, 4000, 5, 15)
+    n_mem, n_disk, n_spiral, lo, hi = (2800, 900, 550, 5, 12) if tier == "quick" else (30000, 10000, 5000, 5, 15)
     out = [gen_case(rng, False, lo, hi) for _ in range(n_mem)]
     out += [gen_case(rng, True, lo, hi) for _ in range(n_disk)]
     out += [gen_spiral_case(rng, lo, hi) for _ in range(n_spiral)]
@@ -776,34 +776,42 @@ PROP = Prop(
     driver="ofdrv_heap",
     generate=generate, impl=impl, oracle=oracle, nontrivial=nontrivial, corpus=corpus, neighbours=neighbours,
     extra_lean_files=["OFCore/Heap.lean", "OFCore/Lemmas/Heap.lean", "OFCore/Lemmas/HeapClone.lean",
-                      "OFCore/Lemmas/HeapRun.lean", "OFCore/Drv/Heap.lean"],
+                      "OFCore/Lemmas/HeapRun.lean", "OFCore/Lemmas/HeapTidy.lean", "OFCore/Lemmas/HeapFamily.lean",
+                      "OFCore/Drv/Heap.lean"],
     partial_theorems=["C13_footprints_disjoint_partial", "C13_noninterference_partial"],
     search_budget_factor=2,
-    rule=("one line = one history: a rule system of 5-8 float variables built with type(...) (person and group entities; month, "
-          "year and eternity definition periods; inputs, and formulas `c + sum coef*dep` whose dependencies are read through "
-          "population(dep, p), group.sum(group.members(dep, p)) or person.<group>(dep, p), at the requested period or at "
-          "period.last_month; rarely a self-reference through last_month (spiral), a same-period cycle, a unit or an entity "
-          "mismatch; role-dependent reads: group.sum(..., role=R), group.nb_persons(role=R), person.has_role(R)); every group "
-          "entity declares r0 (sub-roles r0s0, r0s1), r1, r2 (max 1), and 3 simulations in 4 assign explicit roles (members in "
-          "second / third roles and sub-roles, at most one r2 per group), the others never assign members_role; "
-          "real Population / GroupPopulation objects of 1-4 persons in 0-2 group entities (every group non-empty) "
-          "handed to Simulation(tbs, populations), with or without MemoryConfig(max_memory_occupation=0, priority_variables=...) "
-          "installed before any holder exists; 0-6 public calls on the original (some histories first touch every holder), "
-          "clone(trace=...) and 5-12 (thorough 5-15) interleaved calls on original and clone: set_input (own-unit periods, "
-          "sometimes a foreign unit or a wrong length), delete_arrays (one period, a containing period, everything), calculate, "
-          "calculate_add (year over months, 3 months, ...), simulation.trace = b, get_holder; a quarter of the calls repeat an "
-          "earlier call's variable and period on the other side. A dedicated family runs variables defined from their own past "
-          "on both sides (spiral rule, invalidated entries, purge). Compared with the model after clone(): the alias graph "
-          "(id()-classes of simulation.persons / populations / tracer / invalidated_caches / _data_storage_dir, "
-          "population.simulation / _holders / members, holder.population / simulation / _memory_storage / ._arrays / "
-          "_disk_storage / its directory, of both simulations) and, after every call, its result and every observable of both "
-          "simulations (known periods and vectors of every holder, entity structure with the role of every member and "
-          "nb_persons(role) for every role, what each part refers to, trace flag, "
-          "recorded roots, stack depth, invalidated set). Non-trivial = some call after the clone changed an observable. "
-          "distinct = distinct protocol lines."),
+    rule=("one line = one history: a rule system of 5-9 variables built with type(...) (person and group entities; month, year, "
+          "eternity and day definition periods; inputs of every value type - float, int, bool, enum, str, date - and float formulas "
+          "`c + sum coef*dep` whose dependencies are read through population(dep, p), group.sum(group.members(dep, p)[, role=R]), "
+          "group.value_nth_person(k, ...), person.<group>(dep, p), group.nb_persons(role=R), person.has_role(R), parameters(period).p0 "
+          "(three-argument formula), at the requested period or at period.last_month; a quarter of the formulas are in the cache "
+          "blacklist; rarely a self-reference through last_month (spiral), a same-period cycle, a unit or an entity mismatch; a "
+          "formula without term returns a scalar); real Population / GroupPopulation objects of 1-4 persons in 0-2 group entities "
+          "(roles r0 with two sub-roles, r1, r2 max 1; 3 in 4 assign explicit roles, half assign explicit members_position, often "
+          "against the order of appearance) handed to Simulation(tbs, populations) with opt_out_cache on or off, max_spiral_loops "
+          "1-3 and, for a quarter, MemoryConfig(max_memory_occupation=0, priority_variables, variables_to_drop) installed before any "
+          "holder exists; 0-6 public calls on the original, clone(trace=, debug=) and 5-12 (thorough 5-15) events on the live "
+          "simulations: set_input (own-unit periods, sometimes a foreign unit, a wrong length, an uncastable dtype, an unknown "
+          "variable; lists, ndarrays of several dtypes, 0-dimensional values, enum members / names / indices; Period objects or "
+          "period texts), set_input with the array OBJECT another simulation holds, delete_arrays (one period, a containing period, "
+          "everything), calculate, calculate_add, simulation.trace = b, get_holder, and further clone() calls on the original, on a "
+          "clone, on a clone's clone (up to 5 live simulations), made after calculations, failed requests and spirals; a quarter of "
+          "the calls repeat an earlier call's variable and period on another simulation. A dedicated family runs variables defined "
+          "from their own past on every simulation (spiral rule, invalidated entries, purge). Compared with the model at every "
+          "clone(): the alias graph (id()-classes of simulation.persons / populations / tracer / invalidated_caches / "
+          "_data_storage_dir, population.simulation / _holders / members, holder.population / simulation / _memory_storage / "
+          "._arrays / _disk_storage / its directory, of parent and clone) and, after every event, its result and every observable "
+          "of every live simulation (known periods and vectors of every holder through get_known_periods / get_array, entity "
+          "structure with ids, the role and position of every member and nb_persons(role) for every role, what each part refers "
+          "to, debug / opt_out_cache / max_spiral_loops, trace flag, recorded roots, stack depth, invalidated set). The oracle "
+          "compares every live simulation after every event with a control built afresh and fed the simulation's own lineage of "
+          "calls (its ancestors' calls up to each clone(), then its own). Non-trivial = some event after the first clone changed an "
+          "observable. distinct = distinct protocol lines."),
     assumptions=[
-        "numpy vectors are treated as values: no call of the property mutates an array in place (clone and original do share "
-        "the array objects of the values present at clone time; a caller writing into an array returned by calculate() is outside the property)",
+        "numpy vectors are treated as values: no call of the property mutates an array in place; clone and original do share the "
+        "array OBJECTS of the values present at clone time, and set_input stores the caller's array object (the histories hand "
+        "arrays held by one simulation to another and go on calculating: an engine that accumulated in place would be seen, as "
+        "the seeded change C13-4 was); a FORMULA or a caller writing into an array it was given is outside the property",
         "the tax-benefit system, entities, variables, ids / members_entity_id arrays and the MemoryConfig object are shared by "
         "reference and immutable here (mutation of the system is C14's subject)",
         "ids are (region, index) pairs and a call allocates at the end of its own simulation's region: any discipline handing out "
@@ -820,9 +828,13 @@ PROP = Prop(
     ],
     exhaustive_note="",
     level_text=("T on the model for ALL heaps and ALL interleavings: ownership of the clone (C13_clone_owns_itself), equality "
-                "of values / known periods / entity structure right after clone() with the original untouched "
-                "(C13_clone_equal_initially); for memory-backed simulations disjoint footprints and non-interference of "
-                "observations and returned values (_partial: the unrestricted statements are false because cloned holders share "
-                "their OnDiskStorage and directory, finding F-C13-disk, proved as C13_disk_shared_counterexample). K: alias "
-                "graph of the real objects right after clone() and every observable after every call of interleaved histories."),
+                "of values / known periods / entity structure (roles, positions) / configuration right after clone() with the "
+                "original untouched (C13_clone_equal_initially); for memory-backed simulations disjoint footprints and "
+                "non-interference of observations and returned values (_partial: the unrestricted statements are false because "
+                "cloned holders share their OnDiskStorage and directory, finding F-C13-disk, proved as "
+                "C13_disk_shared_counterexample); any number of closed simulations never interfere "
+                "(C13_family_noninterference) and every history of calls and clones - clones of clones, clones made after "
+                "failed requests and spirals - keeps the live simulations separate and clonable "
+                "(C13_histories_keep_simulations_separate). K: alias graph of the real objects at every clone() and every "
+                "observable of every live simulation after every event."),
 )
